@@ -546,6 +546,53 @@ Definition mb_get_config (s : mb_state) (ds : list draw) (cands : list C) (opt :
         else Ok (s', None, ds)
   end.
 
+(* _get_config_not_modelbased with an explicit exclusion list (get_batch_configs passes its batch-local
+   list): returns (state, config, pick_random, remaining draws) *)
+Definition mb_not_modelbased (s : mb_state) (e : excl) (ds : list draw)
+  : res (mb_state * option C * bool * list draw) :=
+  let r := match mb_rs s with Some r => r | None => mb_fresh_rs s end in
+  match mb_p2e s with
+  | c :: rest => Ok (mb_with s rest (mb_tj s) (Some r), Some c, true, ds)
+  | [] =>
+      if mb_pick_random s e then
+        match mb_random_loop (mb_outer s) r e ds with
+        | Err x => Err x
+        | Ok (r', c, ds') => Ok (mb_with s [] (mb_tj s) (Some r'), c, true, ds')
+        end
+      else Ok (mb_with s [] (mb_tj s) (Some r), None, false, ds)
+  end.
+
+(* get_batch_configs, batch_size > 1: first the part which does not need the model (remaining initial
+   points, then random draws), every member is added to the batch-local exclusion list (whatever
+   allow_duplicates says); as soon as a model-based decision is due, the rest of the batch is selected
+   greedily (bo_batch). [fuel] = batch_size bounds the while loop *)
+Fixpoint mb_batch_loop (fuel : nat) (s : mb_state) (e : excl) (ds : list draw) (acc : list C)
+  : res (mb_state * excl * list C * bool * list draw) :=
+  match fuel with
+  | O => Ok (s, e, acc, true, ds)
+  | S f =>
+      match mb_not_modelbased s e ds with
+      | Err x => Err x
+      | Ok (s', oc, pick_random, ds') =>
+          if pick_random then
+            match oc with
+            | Some c => mb_batch_loop f s' (excl_add e c) ds' (acc ++ [c])
+            | None => Ok (s', e, acc, true, ds')        (* space exhausted *)
+            end
+          else Ok (s', e, acc, false, ds')
+      end
+  end.
+
+Definition mb_get_batch (s : mb_state) (batch_size : nat) (ds : list draw)
+           (oracles : list (list C * (C -> C))) : res (mb_state * list C) :=
+  let e0 := tj_excl (mb_tj s) (mb_allow_dup s) in
+  match mb_batch_loop batch_size s e0 ds [] with
+  | Err x => Err x
+  | Ok (s', e, acc, pick_random, _) =>
+      if pick_random then Ok (s', acc)
+      else Ok (s', acc ++ bo_batch (mb_size s) (batch_size - length acc) e oracles)
+  end.
+
 (* register_pending (BayesianOptimizationSearcher) -> append_trial -> append_pending *)
 Definition mb_register_pending (s : mb_state) (t : Z) (c : C) : res mb_state :=
   let tj := mb_tj s in
